@@ -1,6 +1,7 @@
 import os
 import sys
 import time
+import codecs
 import pty
 import tty
 import errno
@@ -831,6 +832,19 @@ class spawn(SpawnBase):
         '''This is used by the interact() method.
         '''
 
+        if self.encoding is not None:
+            # interact() copies bytes, but in unicode mode the log files take
+            # text: decode each direction incrementally (a read may end in
+            # the middle of a character), as _log_control() does.
+            decoders = {
+                'read': codecs.getincrementaldecoder(self.encoding)('replace'),
+                'send': codecs.getincrementaldecoder(self.encoding)('replace'),
+            }
+            def log(data, direction):
+                self._log(decoders[direction].decode(data), direction)
+        else:
+            log = self._log
+
         while self.isalive():
             if self.use_poll:
                 r = poll_ignore_interrupts([self.child_fd, self.STDIN_FILENO])
@@ -851,7 +865,7 @@ class spawn(SpawnBase):
                     break
                 if output_filter:
                     data = output_filter(data)
-                self._log(data, 'read')
+                log(data, 'read')
                 os.write(self.STDOUT_FILENO, data)
             if self.STDIN_FILENO in r:
                 data = self.__interact_read(self.STDIN_FILENO)
@@ -863,10 +877,10 @@ class spawn(SpawnBase):
                 if i != -1:
                     data = data[:i]
                     if data:
-                        self._log(data, 'send')
+                        log(data, 'send')
                     self.__interact_writen(self.child_fd, data)
                     break
-                self._log(data, 'send')
+                log(data, 'send')
                 self.__interact_writen(self.child_fd, data)
         else:
             # The loop ended because the child exited, not through a break:
@@ -890,7 +904,7 @@ class spawn(SpawnBase):
                     break
                 if output_filter:
                     data = output_filter(data)
-                self._log(data, 'read')
+                log(data, 'read')
                 os.write(self.STDOUT_FILENO, data)
 
 
